@@ -33,6 +33,7 @@ def describe(ck):
     ck.rule("R05o", "aln_param_init rejects an infinite gap penalty (a test that is true for +inf leads to the error exit) for each of gpo, gpe, tgpe")
     ck.rule("R05p", "an array that replaces msa->sequences receives no NULL slot: every record of the old array is carried over")
     ck.rule("R05r", "loops bounded by the length of an input line index that line, or a pointer at a known offset with the bound reduced by it, or test for the terminating NUL")
+    ck.rule("R05s", "every function that (re)allocates msa_seq.gaps zeroes the counters up to exactly the allocated count")
     ck.rule("R05j", "loop-carried appends X->buf[X->count]; X->count++ test count against capacity before the next element access")
     ck.rule("R05k", "a local pointer that aliases storage owned by a struct field is not passed to a releaser while the owner still holds it")
     ck.not_decided += ["termination of all loops", "index safety inside the DP / bit-parallel kernels",
@@ -428,6 +429,7 @@ def run(ck, progs):
         ck.attempt(r05m, ck, prog)
         ck.attempt(r05n, ck, prog)
         ck.attempt(r05o, ck, prog)
+        ck.attempt(r05s, ck, prog)
         n = ck.attempt(r05r, ck, prog)
         ck.floor("R05r", n, 3, "line-length bounded accesses")
         ck.attempt(r05p, ck, prog)
@@ -1830,3 +1832,53 @@ def r05r(ck, prog, functions=None):
                                      "%s is indexed up to %s at offset %s of %s: %d byte(s) past the %s+1 bytes of the line" % (
                                          b.text(), hi, off, bname, tot.c - 1, lname), prog.config)
     return n
+
+
+# --------------------------------------------------------------------------- R05s
+def r05s(ck, prog):
+    """gap counters are zeroed over everything that is (re)allocated for them: in every function that allocates
+    msa_seq.gaps, the loop(s) storing 0 into gaps[i] end exactly at the allocated element count"""
+    from ..affine import lin, Lin, single_defs, loop_range, alloc_sites
+    n = 0
+    for F in prog.lib_functions():
+        allocs = [(t, sz) for t, sz, c in alloc_sites(F) if t.k == "MemberExpr" and t.d.get("field") == "gaps" and t.d.get("rec") == "msa_seq"]
+        if not allocs:
+            continue
+        subst = single_defs(F)
+        es = None
+        for t, sz in allocs:
+            L = lin(sz, subst)
+            szs = [x.cv for x in sz.walk() if x.k == "UnaryExprOrTypeTraitExpr" and x.cv]
+            if L is None or len(set(szs)) != 1 or L.div(szs[0]) is None:
+                raise AnalysisBroken("R05s: allocation size of msa_seq.gaps in %s is not affine" % F.name)
+            es = L.div(szs[0])
+        his = []
+        for a in F.body.find("BinaryOperator"):
+            if a.d["op"] == "=" and const_value(a.kids[1]) == 0 and a.kids[0].strip().k == "ArraySubscriptExpr":
+                b = a.kids[0].strip().kids[0].strip(casts=True)
+                if b.k == "MemberExpr" and b.d.get("field") == "gaps" and b.d.get("rec") == "msa_seq":
+                    loops = [x for x in a.ancestors() if x.k == "ForStmt"]
+                    rng = loop_range(loops[0], subst) if loops else None
+                    if rng is None:
+                        raise AnalysisBroken("R05s: the loop zeroing msa_seq.gaps in %s is not a recognised counting loop" % F.name)
+                    his.append((rng, a))
+        n += 1
+        where = site(prog, allocs[0][0], "gaps")
+        if not his:
+            ck.inst("R05s", where, "%s allocates gaps with %s element(s); no zeroing loop" % (F.name, es), prog.config)
+            ck.violation("R05s", "R05s/%s/gaps-uninitialised" % F.name, where,
+                         "%s (re)allocates msa_seq.gaps but never zeroes it: gap counters start from stale heap contents" % F.name, prog.config)
+            continue
+        top = None
+        for (var, lo, hi), a in his:
+            d = es.add(hi, -1)
+            ck.inst("R05s", site(prog, a, "gaps[i]=0"), "%s: gaps allocated with %s, zeroed over [%s, %s)" % (F.name, es, lo, hi), prog.config)
+            if d.is_const():
+                top = d.c if top is None else min(top, d.c)
+        if top is None:
+            raise AnalysisBroken("R05s: zeroing bound and allocation size of msa_seq.gaps in %s are not comparable" % F.name)
+        if top > 0:
+            ck.violation("R05s", "R05s/%s/gaps-tail" % F.name, where,
+                         "%s allocates %s gap counters but zeroes %d fewer: the last slot(s) keep stale heap contents and are later "
+                         "summed as gaps (the result depends on what earlier calls left on the heap)" % (F.name, es, top), prog.config)
+    ck.floor("R05s", n, 3, "allocators of msa_seq.gaps")
